@@ -25,9 +25,6 @@ def encExcl : Option (Excl Int) → String
   | some (.num i) => "(n " ++ toString i ++ ")"
   | some (.flag b) => "(b " ++ (if b then "1" else "0") ++ ")"
 
-def containerKeys : List String :=
-  Dcg.Gen.Formats.jsonSchemaPathsSplit.filterMap (fun p => match p with | [k] => some k | _ => none)
-
 def container? : SX → Option (String × List String)
   | .list (k :: names) => match k.str?, names.mapM SX.str? with
     | some k, some ns => some (String.ofList k, ns.map String.ofList)
